@@ -39,11 +39,12 @@ const (
 	KRecords // fixed-width text records (CR LF or LF line ends) whose width often divides the block size
 	KLatin1  // 8-bit text: words whose letters are often accented Latin-1 bytes (>= 0xC0), so that escapes abound
 	KExeELF  // well-formed minimal ELF64 image: one code section at a drawn (possibly unaligned) file offset, x86-64 or AArch64 code
+	KStretch // compressible text with ONE uninterrupted incompressible stretch whose length sits around the widths of the literal-run length fields (2^16, 2^21, 2^24)
 	NKinds
 )
 
 var KindNames = []string{"random", "text", "xml", "utf8", "dna", "exe-x86", "exe-arm", "wav", "bmp", "runs",
-	"skewed", "smallalpha", "repeat", "numeric", "base64", "same", "magic", "zeros", "ramp", "mixed", "limits", "records", "latin1", "exe-elf"}
+	"skewed", "smallalpha", "repeat", "numeric", "base64", "same", "magic", "zeros", "ramp", "mixed", "limits", "records", "latin1", "exe-elf", "stretch"}
 
 // Recipe describes a byte string; Expand builds it.
 type Recipe struct {
@@ -427,6 +428,15 @@ func expandInto(b []byte, kind int, seed uint64, p1, p2 int) {
 				}
 			}
 		}
+	case KStretch:
+		expandInto(b, KText, seed, 1, 0)
+		L := []int{1<<16 + 300, 1<<21 - 4096, 1<<21 + 4096, 3 << 20, 1<<24 + 300, 1<<16 - 2}[p1%6]
+		head := 4096 + 1024*(p2%64)
+		if head+L+4096 > n {
+			L = n / 2
+			head = n / 4
+		}
+		r.fill(b[head : head+L])
 	case KDNA:
 		al := "ACGT"
 		for i := range b {
